@@ -16,7 +16,7 @@ use crate::driver::Check;
 use crate::isolate;
 use crate::nsgen::ast::*;
 use crate::nsgen::build::generate;
-use crate::nsgen::print::{LAYOUTS, Layout, LayoutStats, render_layout, tokens};
+use crate::nsgen::print::{LAYOUTS, Layout, LayoutStats, Tok, render_layout, tokens};
 use crate::nsgen::tape::Tape;
 use crate::pipeline::{Mode, Obs, RunOpts, Stage, run_source};
 use crate::progs::{CASE_TIMEOUT, is_arena_exhaustion, profile_by_name, show_vals, tape_strategy};
@@ -197,6 +197,8 @@ pub struct Case {
     pub tape: Vec<u8>,
     pub layout_tape: Vec<u8>,
     pub injection: Option<(u8, u16, u8)>,
+    /// non-zero: declared identifiers are renamed to keyword-like names (nsgen::rename)
+    pub rename: u64,
 }
 
 fn check_case(ctx: &mut ShardCtx, c: &Case) -> Outcome {
@@ -204,7 +206,60 @@ fn check_case(ctx: &mut ShardCtx, c: &Case) -> Outcome {
     if let Some((op, site, variant)) = c.injection {
         let _ = inject(&mut program, &Injection { op, site, variant });
     }
+    if c.rename != 0 {
+        let original = program.clone();
+        // half of the time: pick two declared identifiers that are adjacent in the token stream
+        // (end of one statement, start of the next) and make them `small` / `pass...` or
+        // `if` / `to...`, `not...`
+        let mut forced: Vec<(String, &'static str)> = Vec::new();
+        if c.rename % 2 == 0 {
+            let decl = crate::nsgen::rename::declared_names(&program);
+            let t0 = tokens(&program);
+            let words: Vec<&Tok> = t0.iter().filter(|t| !matches!(t, Tok::Brk(_))).collect();
+            let pairs: Vec<(&String, &String)> = words
+                .windows(2)
+                .filter_map(|w| match (w[0], w[1]) {
+                    (Tok::Word(a), Tok::Word(b)) if a != b && decl.contains(a) && decl.contains(b) => Some((a, b)),
+                    _ => None,
+                })
+                .collect();
+            if !pairs.is_empty() {
+                let k = (c.rename / 2) as usize;
+                let (a, b) = pairs[k % pairs.len()];
+                const FOLLOW_SMALL: [&str; 4] = ["passes", "password", "pass_", "passe"];
+                const FOLLOW_IF: [&str; 6] = ["tosay", "to", "notso", "nots", "to_", "not_"];
+                if (k / pairs.len()) % 3 != 0 {
+                    forced = vec![(a.clone(), "small"), (b.clone(), FOLLOW_SMALL[(k / 7) % 4])];
+                } else {
+                    forced = vec![(a.clone(), "if"), (b.clone(), FOLLOW_IF[(k / 7) % 6])];
+                }
+            }
+        }
+        let n = crate::nsgen::rename::rename_tricky(&mut program, c.rename, &forced);
+        // `small` directly in front of the operator `pass` would *be* the keyword `small pass`
+        let t = tokens(&program);
+        let clash = t.windows(2).any(|w| matches!((&w[0], &w[1]), (Tok::Word(a), Tok::Word(b)) if a == "small" && b == "pass"));
+        if clash {
+            program = original;
+        } else if n > 0 {
+            ctx.class("identifiers renamed to keyword-like names");
+        }
+    }
     let toks = tokens(&program);
+    {
+        // a keyword piece at the end of one statement, a word that extends the keyword's next
+        // word at the start of the following one (`... small` / `passes ...`)
+        let words: Vec<&Tok> = toks.iter().filter(|t| !matches!(t, Tok::Brk(_))).collect();
+        let hazard = words.windows(2).any(|w| match (w[0], w[1]) {
+            (Tok::Word(a), Tok::Word(b)) => {
+                (a == "small" && b.starts_with("pass")) || (a == "if" && (b.starts_with("to") || b.starts_with("not")))
+            }
+            _ => false,
+        });
+        if hazard {
+            ctx.class("keyword piece followed by a word extending the keyword's next word");
+        }
+    }
     let mut lt = Tape::new(&c.layout_tape);
     let mut texts = Vec::new();
     let mut stats: Vec<LayoutStats> = Vec::new();
@@ -221,6 +276,7 @@ fn check_case(ctx: &mut ShardCtx, c: &Case) -> Outcome {
         "tape": hex(&c.tape),
         "layout_tape": hex(&c.layout_tape),
         "injection": c.injection.map(|(a, b, d)| json!([a, b, d])),
+        "rename": c.rename,
         "source": texts[0],
     });
     let mut all = texts.clone();
@@ -335,11 +391,17 @@ impl Check for C10 {
     fn shard(&self, ctx: &mut ShardCtx) {
         ctx.max_shrink_iters = 250; // every evaluation runs several renderings / subprocesses
         let n = ctx.tier.pick(600, 10_000);
-        let plain = (tape_strategy(500), tape_strategy(600))
-            .prop_map(|(tape, layout_tape)| Case { tape, layout_tape, injection: None });
+        let rename = || prop_oneof![1 => Just(0u64), 1 => 1u64..u64::MAX];
+        let plain = (tape_strategy(500), tape_strategy(600), rename())
+            .prop_map(|(tape, layout_tape, rename)| Case { tape, layout_tape, injection: None, rename });
         crate::prop::run(ctx, "accepted", n, plain, check_case);
-        let injected = (tape_strategy(400), tape_strategy(600), 0..OPS, any::<u16>(), any::<u8>()).prop_map(
-            |(tape, layout_tape, op, site, variant)| Case { tape, layout_tape, injection: Some((op, site, variant)) },
+        let injected = (tape_strategy(400), tape_strategy(600), 0..OPS, any::<u16>(), any::<u8>(), rename()).prop_map(
+            |(tape, layout_tape, op, site, variant, rename)| Case {
+                tape,
+                layout_tape,
+                injection: Some((op, site, variant)),
+                rename,
+            },
         );
         crate::prop::run(ctx, "injected", n / 2, injected, check_case);
     }
@@ -358,6 +420,7 @@ impl Check for C10 {
                 a[2].as_u64().unwrap_or(0) as u8,
             )
         });
-        check_case(ctx, &Case { tape, layout_tape: lt, injection })
+        let rename = input.get("rename").and_then(J::as_u64).unwrap_or(0);
+        check_case(ctx, &Case { tape, layout_tape: lt, injection, rename })
     }
 }
